@@ -79,7 +79,7 @@ pub fn run(ctx: &mut Ctx) {
     let ps = preds();
     let d = data();
     // literal arrays of expression elements
-    for n in 0..=3usize {
+    for n in 0..=(if ctx.tier_thorough { 4usize } else { 3usize }) {
         for t in al::tuples(&ee, n) {
             if !ctx.mine() {
                 continue;
@@ -92,7 +92,7 @@ pub fn run(ctx: &mut Ctx) {
     }
     // computed arrays: elements are data
     let vals = vec![json!(1), json!(0), json!("a"), json!(null), json!([]), json!({"var": "k"}), json!({"log": "LEAK"})];
-    for n in 0..=3usize {
+    for n in 0..=(if ctx.tier_thorough { 4usize } else { 3usize }) {
         for t in al::tuples(&vals, n) {
             if !ctx.mine() {
                 continue;
